@@ -16,12 +16,13 @@ from nauyaca.server.handler import FileUploadHandler, StaticFileHandler
 # ============================================================================================= C02
 def build_static_tree(base: Path):
     root, outside, sibling = base / "root", base / "outside", base / "root-evil"
-    for d in (root, outside, sibling, root / "sub", root / "sub2", root / "deep" / "nested", root / "idx" / "index.gmi", root / "sp ace dir"):
+    for d in (root, outside, sibling, root / "sub", root / "sub2", root / "deep" / "nested", root / "idx" / "index.gmi", root / "sp ace dir", root / "v1..v2"):
         d.mkdir(parents=True)
     files = {
         "index.gmi": "ROOT-INDEX", "a.gmi": "FILE-A", "sp ace.gmi": "FILE-SPACE", "ünï.gmi": "FILE-UNI", "semi;colon.gmi": "FILE-SEMI",
         "per%cent.gmi": "FILE-PERCENT", "plus+amp&.gmi": "FILE-RESERVED", "sub2/b.gmi": "FILE-B", "deep/nested/file.gmi": "FILE-DEEP",
         "sp ace dir/c.gmi": "FILE-C", "trail.": "FILE-TRAILDOT", "q?mark.gmi": "FILE-QMARK", "ha#sh.gmi": "FILE-HASH",
+        "notes..old.gmi": "FILE-DOTDOT-NAME", "v1..v2/x.gmi": "FILE-DOTDOT-DIR", "...": "FILE-THREE-DOTS", "..hidden.gmi": "FILE-LEADING-DOTS", "tilde~.gmi": "FILE-TILDE",
     }
     for rel, text in files.items():
         (root / rel).write_text(text + "\n", encoding="utf-8")
